@@ -8,8 +8,11 @@
     model is the branch-and-bound of the solver (CBC through PuLP): that its answer is optimal for the program it
     was given is the remaining assumption; that the answer is integral and feasible for the MODEL's rows, decodes
     to the returned consensus and has objective = reported score = the verified brute-force optimum [opt] is
-    checked on every run.  CPLEX is not installed: the CPLEX models are not exercised (the selector's fallback to
-    the free solver is). *)
+    checked on every run.  CPLEX is not installed: the CPLEX models (optimize on / off, one / all optimal
+    consensuses, the "optim1" variant, the CPLEX branch of the selector) are run on a stand-in for the CPLEX
+    Python API (same calls, CBC underneath); their program is the same one plus the "no tie" rows, which lose no
+    optimum when no pair is cheaper tied than in the average of its two orders ([C05_cplex_notie_optimal]; the
+    source used a threshold of 0.001 there - finding F15, repaired). *)
 From Corankco Require Import Prelude Scheme Rank KemenySpec CostTable CostTableProof OptTheory Partition PartitionProof ILP ILPProof.
 Local Open Scope Z_scope.
 
@@ -79,3 +82,32 @@ Theorem C05_ilp_min_reached : forall K n P,
             forall v', feasible n P v' = true -> obj_value K n v <= obj_value K n v'.
 Proof. exact ilp_min_reached. Qed.
 Print Assumptions C05_ilp_min_reached.
+
+(** * the CPLEX model: binary and transitivity rows plus, when the test allows it, one row [t_i_j = 0] per pair *)
+Theorem C05_cplex_notie_optimal : forall K n, mirror K ->
+  (forall i j, (i < j < n)%nat -> let '(b, a, t) := K i j in b + a <= 2 * t) ->
+  forall v, feasible n [] v = true -> forallb (sat v) (notie_rows n) = true ->
+  (forall v', feasible n [] v' = true -> forallb (sat v') (notie_rows n) = true -> obj_value K n v <= obj_value K n v') ->
+  wfU (seq 0 n) (decode n v) /\ score K (decode n v) = opt K (seq 0 n) /\ obj_value K n v = opt K (seq 0 n).
+Proof. exact ilp_notie_optimal. Qed.
+Print Assumptions C05_cplex_notie_optimal.
+
+(** the test of the source (after the repair of F15: threshold 0 in model units) gives that hypothesis *)
+Theorem C05_can_no_ties_spec : forall K n, can_no_ties K n 0 = true ->
+  forall i j, (i < j < n)%nat -> let '(b, a, t) := K i j in b + a <= 2 * t.
+Proof.
+  intros K n H i j Hij. unfold can_no_ties in H. rewrite forallb_forall in H.
+  assert (Hin : In (i, j) (ordpairs (seq 0 n))).
+  { clear H. revert i j Hij. induction n as [|n IH]; intros i j Hij; [lia|].
+    rewrite seq_S, Nat.add_0_l.
+    assert (G : forall (l : list nat) x, In (i, j) (ordpairs l) \/ (In i l /\ j = x) -> In (i, j) (ordpairs (l ++ [x]))).
+    { induction l as [|a l IHl]; intros x [Hl|[Hi Hj]]; try (destruct Hl); try (destruct Hi).
+      - cbn [app ordpairs] in *. apply in_app_or in Hl as [Hl|Hl]; apply in_or_app.
+        + left. apply in_map_iff in Hl as (y & E & Hy). inversion E; subst. apply in_map. apply in_or_app. left. exact Hy.
+        + right. apply IHl. left. exact Hl.
+      - subst. cbn [app ordpairs]. apply in_or_app. left. apply in_map. apply in_or_app. right. left. reflexivity.
+      - subst. cbn [app ordpairs]. apply in_or_app. right. apply IHl. right. split; [assumption|reflexivity]. }
+    apply G. destruct (Nat.eq_dec j n) as [->|Nj]; [right; split; [apply in_seq; lia|reflexivity]|left; apply IH; lia]. }
+  specialize (H (i, j) Hin). cbn [fst snd] in H. destruct (K i j) as [[b a] t]. lia.
+Qed.
+Print Assumptions C05_can_no_ties_spec.
